@@ -678,7 +678,10 @@ _FP_BIN = {"fadd", "fsub", "fmul", "fdiv", "frem"}
 _CASTS = {"zext", "sext", "trunc", "bitcast", "sitofp", "uitofp", "fptosi", "fptoui", "fpext", "fptrunc", "ptrtoint", "inttoptr", "addrspacecast"}
 
 
-def gated(mod, fn, max_paths=4000):
+def gated(mod, fn, max_paths=4000, control_only=False):
+    """control_only: stores, memset/memcpy and allocas are skipped (memory is not modelled: a remaining load is
+    Unsupported) and a never-returning call becomes an argument-less effect leaf; what is left is which exit each
+    path takes, as a function of the scalar arguments."""
     blocks = {}
     for lab in fn.order:
         ins, pend = [], None
@@ -867,6 +870,11 @@ def gated(mod, fn, max_paths=4000):
                     continue
                 if "@llvm.dbg." in sb or "@llvm.lifetime" in sb or "llvm.experimental.noalias" in sb:
                     continue
+                if control_only and sb.startswith("alloca"):
+                    env[res] = ("k", "ptr", "alloca " + res)
+                    continue
+                if control_only and (sb.startswith("store ") or re.match(r"^call void @llvm\.mem(set|cpy|move)\.", sb)):
+                    continue
                 if "@__cxa_allocate_exception" in sb:
                     # the C++ throw sequence: allocate, construct (invoke), __cxa_throw(obj, typeinfo, dtor); unreachable
                     rest = ins[ins.index(l):]
@@ -889,6 +897,10 @@ def gated(mod, fn, max_paths=4000):
                 nxt = ins[ins.index(l) + 1] if ins.index(l) + 1 < len(ins) else ""
                 if sb.startswith(("call", "invoke")) and strip(nxt).startswith("unreachable"):
                     m = re.match(r"^call (.+?) @([-\w.$]+)\((.*)\)$", sb)
+                    if m and control_only:
+                        strs = [irmod._global_content(mod, gname) for gname in re.findall(r"@\.str[.\w]*", sb)]
+                        msgs = re.findall(r'c"([^"]*?)\\00"', " ".join(strs))
+                        return ("effect", m.group(2), (("k", "msg", msgs[0] if msgs else ""),))
                     if m:
                         a = []
                         for part in irmod._split_top(m.group(3)):
